@@ -82,6 +82,9 @@ type Cluster struct {
 	hits    map[string]int
 	OnPoint func(name string, gid, rid uint64) // called (in the hooked goroutine) for every point
 	Clock   int64                              // event counter maintained by the engine (message age)
+	// Stopping is true while the harness itself stops or boots a node: engines
+	// must not park goroutines then (the harness call would wait forever)
+	Stopping bool
 }
 
 const NS = "default"
@@ -619,18 +622,36 @@ func (cl *Cluster) Kill(m *Machine) {
 	}
 }
 
-// StopGraceful stops a machine the way a clean shutdown does.
-func (cl *Cluster) StopGraceful(m *Machine) {
+// StopGraceful stops a machine the way a clean shutdown does. It reports
+// false if a node did not finish stopping within two simulated minutes.
+func (cl *Cluster) StopGraceful(m *Machine) bool {
 	if !m.Up {
-		return
+		return true
 	}
 	m.Up = false
+	cl.Stopping = true
+	defer func() { cl.Stopping = false }()
+	ok := true
 	for _, p := range cl.partsOf(m) {
-		m.Parts[p].Close()
+		nn := m.Parts[p]
+		done := make(chan struct{})
+		go func() { nn.Close(); close(done) }()
+		select {
+		case <-done:
+		case <-time.After(2 * time.Minute):
+			ok = false
+		}
 		synctest.Wait()
 	}
 	m.tr.dead = true
-	m.Parts = map[int]*node.NamespaceNode{}
+	if ok {
+		m.Parts = map[int]*node.NamespaceNode{}
+	} else {
+		// keep the half-stopped nodes for the final cleanup
+		cl.zomb = append(cl.zomb, &Machine{Idx: m.Idx, Dir: m.Dir, NSM: m.NSM, Srv: m.Srv, Parts: m.Parts, tr: m.tr})
+		m.Parts = map[int]*node.NamespaceNode{}
+	}
+	return ok
 }
 
 // SelfStopped lists the partitions of a live machine whose node shut itself
@@ -655,7 +676,9 @@ func (cl *Cluster) ReviveSelfStopped(m *Machine) error {
 	if len(cl.SelfStopped(m)) == 0 {
 		return nil
 	}
-	cl.StopGraceful(m)
+	if !cl.StopGraceful(m) {
+		return fmt.Errorf("graceful stop of machine %d did not finish", m.Idx)
+	}
 	return cl.Restart(m)
 }
 
@@ -667,7 +690,9 @@ func (cl *Cluster) Restart(m *Machine) error {
 	// restarts take at least a second of wall time (request ids embed the
 	// start time in milliseconds)
 	cl.Sleep(1100 * time.Millisecond)
+	cl.Stopping = true
 	err := cl.boot(m)
+	cl.Stopping = false
 	synctest.Wait()
 	return err
 }
